@@ -116,9 +116,11 @@ fn build_client_with(case: &McCase, logs: &Arc<Mutex<Logs>>, reentry: Reentry) -
             use std::error::Error;
             let src = e.source().map(|s| s.to_string()).unwrap_or_default();
             l.lock().unwrap().handler.push(format!("{:?}|{}|{}", e.kind(), e, src));
+            // the handler reports through the client up to two levels deep:
+            // macro -> handler -> macro -> handler -> macro
             let depth = HANDLER_DEPTH.with(|d| d.get());
-            if depth == 0 {
-                HANDLER_DEPTH.with(|d| d.set(1));
+            if depth < 2 {
+                HANDLER_DEPTH.with(|d| d.set(depth + 1));
                 match &reentry {
                     Reentry::None => {}
                     Reentry::ViaMacro => {
@@ -131,7 +133,7 @@ fn build_client_with(case: &McCase, logs: &Arc<Mutex<Logs>>, reentry: Reentry) -
                         }
                     }
                 }
-                HANDLER_DEPTH.with(|d| d.set(0));
+                HANDLER_DEPTH.with(|d| d.set(depth));
             }
         });
     }
